@@ -86,6 +86,20 @@ def run(tier, rng, C):
     for i in range(n // 3):
         inv, _, _ = G.include_graph_inv(rng, cyclic=(i % 2 == 0), missing=0.1, sel_override=0.3, sel_relative=0.3)
         add(inv, G.op_node('n0') if i % 4 else 'all')
+    # (b2) include loops whose classes are all entered through reference-bearing entries
+    for i in range(n // 6):
+        inv = G.Inv()
+        k = rng.randint(1, 4)
+        loop = ['lp%d' % j for j in range(k)]
+        defs = [(S('t%d' % j), S(loop[j])) for j in range(k)]
+        inv.classes[('defs.yml',)] = G.doc([], [], ('m', defs))
+        for j in range(k):
+            nxt = (j + 1) % k
+            entry = '${t%d}' % nxt if rng.random() < 0.8 else loop[nxt]
+            inv.classes[(loop[j] + '.yml',)] = G.doc([entry], [], M(('v', I(j))))
+        inv.universe.update(loop)
+        inv.nodes[('n.yml',)] = G.doc(['defs', '${t0}' if rng.random() < 0.8 else loop[0]], [], M())
+        add(inv, G.op_node('n') if i % 3 else 'all')
     # (c) byte-level content: invalid YAML, anchors/aliases, merge keys, tags, non-UTF-8, BOM; no model for these
     nb = 120 if tier == 'quick' else 4000
     for i in range(nb):
